@@ -430,6 +430,23 @@ fn take_h(name: &str) -> HandleV {
 fn put_h(name: &str, h: HandleV) {
     TAB.with(|t| t.borrow_mut().handles.insert(name.to_string(), h));
 }
+/// A handler hands a weak handle to itself out to the clients (Context::weak_address / weak_sender / weak_caller).
+pub fn put_ctx_weak<const K: usize>(name: &str, which: &str, ctx: &hannibal::Context<H<K>>) -> &'static str {
+    if TAB.with(|t| t.borrow().handles.contains_key(name)) {
+        return "none";
+    }
+    let h = match which {
+        "ctx_weak_address" => match ctx.weak_address() {
+            Some(w) => HandleV::WAddr(Box::new(w)),
+            None => return "none",
+        },
+        "ctx_weak_sender" => HandleV::WSender(ctx.weak_sender::<SMsg>()),
+        _ => HandleV::WCaller(ctx.weak_caller::<CMsg, Reply>()),
+    };
+    put_h(name, h);
+    "ok"
+}
+
 /// An `Addr<H<0>>` that was given to actor `owner`, borrowed by one of its handlers for a nested call / send to that
 /// peer.  `Send` (unlike the type-erased table entries), and put back into the table when dropped.
 pub struct PeerAddr {
@@ -942,6 +959,22 @@ async fn run_op(c: &str, n: i64, o: &Op) -> Res {
             let a = actor_of(h.aid());
             drop(h);
             r("ok", a)
+        }
+        "claim" => {
+            let a = TAB.with(|t| t.borrow().handles.get(&o.h).map(|h| actor_of(h.aid()))).expect("harness: claim unknown handle");
+            r("ok", a)
+        }
+        "try_publish" => {
+            let m = (c.to_string(), n);
+            let x = match o.ty.as_str() {
+                "1" => Broker::try_publish(Tp::<1>(m)).await,
+                _ => Broker::try_publish(Tp::<2>(m)).await,
+            };
+            match x {
+                Some(Ok(())) => r("ok", "*".into()),
+                Some(Err(_)) => r("err", "*".into()),
+                None => r("none", "*".into()),
+            }
         }
         "give" => {
             let a = TAB.with(|t| t.borrow().handles.get(&o.h).map(|h| actor_of(h.aid()))).expect("harness: give unknown handle");
